@@ -90,6 +90,7 @@ structure Node where
   queue : List Msg                   -- internalMsgQueue
   validTab : List (Name × Int × Bool) -- oracle: state.ValidateBlock per block (a block is for ONE height)
   fresh : Nat                        -- next own block number
+  ownPrefix : Bytes                  -- name prefix of self-created blocks
   skipTimeoutCommit : Bool
   cfg : Cfg
   out : List Emit
@@ -189,7 +190,7 @@ def decideProposal (n : Node) (h r : Int) : Node :=
     match n.lockedBlock with
     | some b => (n, b)
     | none =>
-      let nm : Name := [0x6F] ++ (toString n.fresh).toUTF8.toList      -- "o<k>": own block
+      let nm : Name := n.ownPrefix ++ (toString n.fresh).toUTF8.toList      -- "o<k>": own block
       ({ n with fresh := n.fresh + 1, validTab := n.validTab ++ [(nm, n.height, true)] }, nm)
   let pol := polInfo n
   let p : Proposal := ⟨h, r, block, pol.1, pol.2⟩
@@ -426,6 +427,7 @@ def init (cfg : Cfg) (height : Int) (vals : ValSet.ValSet) (me : Option Nat) (sk
       proposalParts := none, partsComplete := false, lockedRound := 0, lockedBlock := none,
       rounds := [], hvsRound := 0, catchup := [], commitRound := -1, lastCommit := none,
       vals, vals0 := vals, me, signer := Signer.init, queue := [], validTab := [], fresh := 0,
+      ownPrefix := [0x6F],
       skipTimeoutCommit := skip, cfg, out := [] }
   { n with rounds := [newRoundVotes n height 0] }
 
